@@ -34,6 +34,7 @@ INVARIANT TwinInert
 INVARIANT ContentPrefixed
 INVARIANT NoHeaderSite
 INVARIANT IdsUnique
+INVARIANT LiteralUnreachable
 CHECK_DEADLOCK FALSE
 """
 WITNESS_CFG = """SPECIFICATION Spec
@@ -91,9 +92,10 @@ def plant(w, combo, d):
     """Build the document root for (combo, d); returns (request bytes, tls)."""
     proto, src, seps = combo["proto"], combo["src"], SEPS[combo["seps"]]
     W = S0 + d + S1
+    pfx = combo.get("pfx", "")
     w.clear()
     path, query, gp = "/dc", "", None
-    if src != "dirname":
+    if src != "dirname" and not pfx:
         w.mkdir("dc")
         w.write("dc/f.q1", b"hello\n")
     if src == "sel404":
@@ -102,10 +104,13 @@ def plant(w, combo, d):
         path, query = "/nofile-absent", "?searchrequest=" + urllib.parse.quote(W, safe="")
     elif src == "urlsel":
         path = "/URL:http://h/" + W
-    elif src == "dirname":
-        w.mkdir(W)
-        w.write(W + "/f.q1", b"hello\n")
-        path, gp = "/" + W, "/\t$"
+    elif src == "dirname":                       # at the document root: the selector is "/" + prefix + name
+        w.mkdir(pfx + W)
+        w.write(pfx + W + "/f.q1", b"hello\n")
+        path, gp = "/" + pfx + W, "/\t$"
+    elif src == "filename" and pfx:              # reserved prefix: the file sits at the root so that the selector starts with it
+        w.write(pfx + W + ".q1", b"hello\n")
+        path, gp = "/", "/\t$"
     elif src == "filename":
         w.write("dc/" + W + ".q1", b"hello\n")
     elif src == "htmltitle":
@@ -297,7 +302,7 @@ def case_id(job):
 
 def abstract_case(job):
     c = COMBOS[job["cb"]]
-    return {"cb": job["cb"], "d": job["d"], "dname": _names(job["d"]), "proto": c["proto"], "src": c["src"], "tls": job["tls"],
+    return {"cb": job["cb"], "d": job["d"], "dname": _names(job["d"]), "proto": c["proto"], "src": c["src"], "pfx": c.get("pfx", ""), "tls": job["tls"],
             "list": job["list"], "twin": job["twin"], "twins": job["twins"], "rawsite": job["rawsite"],
             "has_lf": "\n" in job["d"], "has_dq": '"' in job["d"]}
 
